@@ -4,6 +4,7 @@ import Nstd.Callback.LemmasGhost
 import Nstd.Callback.LemmasTerm
 import Nstd.Callback.LemmasOrder
 import Nstd.Callback.LemmasArgs
+import Nstd.Callback.LemmasAudit
 /-
   Property C12 — signals reach exactly the connected slots, safely under re-entrancy.
 
@@ -175,6 +176,70 @@ theorem never_invoked_unless_listed (P : Prog) (ne nl fuel : Nat) (ops : List Ac
   have h := runOps_relM P fuel ops h0
   exact ⟨h.bad₁, h.sim.1, h.log⟩
 
+/-- **no_dangling — memory safety and two-sided consistency at every step of every run.**
+    `Audit m` (LemmasAudit.lean) states on the model's own data that every stored pointer that can
+    still be followed is valid — `SignalActivation::next` and `SignalData::activation` point to live
+    activations of the same signal; an activation that is not invalidated has its `SignalData` while its
+    emitter exists; an invalidated activation belongs to a destroyed emitter and the innermost activation of
+    every signal of a destroyed emitter is invalidated; `Slot::receiver`/`object` of every entry not marked
+    `disconnected` is a live listener; every `Emitter*` under which a listener stores anything is a live
+    emitter; the maps' key lists are complete — and that the two sides are inverse to each other as
+    multisets: for every emitter, signal, listener, slot (destroyed objects included) the number of entries
+    not marked `disconnected` on the emitter side = the number of pairs on the listener side.
+    `audited` is the model whose every primitive — connect, disconnect, `~Listener`, `~Emitter`, the
+    constructor of an activation, every step of every emission loop, the destructor of an activation — first
+    evaluates the audit on the state it starts from and raises the fault flag when it fails; the
+    destructor of an activation also checks that it is the innermost activation (so exactly one frame is
+    popped: every activation is destroyed exactly once, in reverse order of construction).
+    For every program, at any nesting depth and every fuel: the audited run is never flagged and is, state
+    and log, the run of the plain model (no audit ever failed, at top level or inside any slot), and the
+    state after the history passes the audit too.  Together with `bookkeeping_consistent` (no frame is left
+    after a top-level call): every activation pushed is popped exactly once. -/
+theorem no_dangling (P : Prog) (ne nl fuel : Nat) (ops : List Action) :
+    (runOps audited P fuel (Run.init State.fresh ne nl) ops).bad = false ∧
+      (runOps audited P fuel (Run.init State.fresh ne nl) ops).m.fault = false ∧
+      (runOps audited P fuel (Run.init State.fresh ne nl) ops).m =
+        (runOps machine P fuel (Run.init State.fresh ne nl) ops).m ∧
+      (runOps audited P fuel (Run.init State.fresh ne nl) ops).log =
+        (runOps machine P fuel (Run.init State.fresh ne nl) ops).log ∧
+      Audit (runOps machine P fuel (Run.init State.fresh ne nl) ops).m := by
+  have h0 : RunRel SimM [] (Run.init State.fresh ne nl) (Run.init State.fresh ne nl) :=
+    ⟨⟨rfl, fun k hk => by simp at hk, SState.fresh, [], sim_init, rfl⟩, ⟨rfl, rfl, rfl, rfl, rfl⟩, rfl, rfl, rfl, rfl, fun hh => hh⟩
+  have h := runOps_relA P fuel ops h0
+  have hp := runOps_rel P fuel ops (init_rel ne nl)
+  refine ⟨h.bad₁, ?_, h.sim.1, h.log, audit_of_sim hp.sim⟩
+  rw [h.sim.1]
+  exact hp.sim.nofault
+
+/-- **The two sides are inverse to each other after every top-level call.**  After any history (the
+    statement is for every list `ops`, hence for every prefix of a history: after EVERY top-level call), for
+    every emitter, signal, listener and slot, destroyed or never used objects included: the number of
+    entries (receiver, slot) in the emitter's slot list of that signal = the number of (signal, slot) pairs
+    the listener stores under that emitter — as multisets of (emitter, signal, listener, slot) the two sides
+    are equal.  (All entries are `connected` then, `bookkeeping_consistent`; inside an emission the same
+    holds for the entries not marked `disconnected`, `no_dangling`.) -/
+theorem two_sides_inverse (P : Prog) (ne nl fuel : Nat) (ops : List Action) (e g l x : Nat) :
+    let m := (runOps machine P fuel (Run.init State.fresh ne nl) ops).m
+    (match m.data e g with
+      | none => 0
+      | some d => d.slots.countP (fun y => y.receiver == l && y.slot == x)) =
+    (match m.listeners l with
+      | none => 0
+      | some li => (li.sigs e).count (g, x)) := by
+  intro m
+  have h : Sim m _ [] := (runOps_rel P fuel ops (init_rel ne nl)).sim
+  have ha := (audit_of_sim h).inverse e g l x
+  simp only [emitterSide, listenerSide] at ha
+  refine Eq.trans ?_ ha
+  cases hd : m.data e g with
+  | none => rfl
+  | some d =>
+    simp only
+    apply List.countP_congr
+    intro y hy
+    have := (sim_quiescent h).2 e g d hd |>.2.2 y hy
+    simp [Slot.isMatch, this]
+
 /-- what "live in the specification" means: a disconnect removes the oldest connection of that
     receiver/slot, destroying a listener or an emitter removes all of theirs -/
 theorem spec_live_after_destroy (s : SState) :
@@ -321,6 +386,28 @@ example : (runOps Spec.machine d18 20 (Run.init SState.fresh 1 2) d18ops).log.re
     [.emitBegin 0 0 3, .call 0 0 3, .emitBegin 0 0 4, .call 1 0 4, .emitEnd, .call 1 0 3, .emitEnd,
      .emitBegin 0 0 5, .call 1 0 5, .call 1 1 5, .emitEnd, .emitBegin 0 0 6, .call 1 1 6, .emitEnd] := by decide
 
+/-! ### cross-emitter nesting (corpus/C12/s03): emitter 0 emits signal 1 at depth 2 (its slot re-emits), the
+    inner slot emits on emitter 1, whose slot destroys emitter 0: both activations of emitter 0 stop, the later
+    slot (2, 1) is never invoked; the logs of model and specification, computed -/
+
+def cross : Prog :=
+  { script := fun l s k =>
+      if l = 0 ∧ s = 0 ∧ k = 0 then [.emit 0 1 6]
+      else if l = 0 ∧ s = 0 ∧ k = 1 then [.emit 1 2 7]
+      else if l = 1 ∧ s = 1 ∧ k = 0 then [.delE 0] else [] }
+
+def crossOps : List Action :=
+  [.connect 0 1 0 0, .connect 0 1 2 1, .connect 1 2 1 1, .emit 0 1 5, .emit 1 2 8]
+
+example : (runOps machine cross 30 (Run.init State.fresh 2 3) crossOps).log.reverse =
+    [.emitBegin 0 1 5, .call 0 0 5, .emitBegin 0 1 6, .call 0 0 6, .emitBegin 1 2 7, .call 1 1 7, .emitEnd, .emitEnd,
+     .emitEnd, .emitBegin 1 2 8, .call 1 1 8, .emitEnd] := by decide
+
+example : (runOps Spec.machine cross 30 (Run.init SState.fresh 2 3) crossOps).log.reverse =
+    (runOps machine cross 30 (Run.init State.fresh 2 3) crossOps).log.reverse := by decide
+
+example : (runOps machine cross 30 (Run.init State.fresh 2 3) crossOps).oof = false := by decide
+
 /-- `fwd` is not trivially true: the D18 run is accepted, the same log with one argument changed or
     with an invocation outside every emission is rejected -/
 example : fwd [] (runOps machine d18 20 (Run.init State.fresh 1 2) d18ops).log.reverse = some [] := by decide
@@ -357,6 +444,18 @@ def dangling : State :=
     listeners := fun _ => none, frames := [], nextNode := 1, fault := false }
 
 example : (delEmitter 0 dangling).fault = true := rfl
+
+/-- ... and the audit is not trivially true: that state fails it, and the audited model flags it -/
+theorem not_audit_dangling : ¬ Audit dangling := fun h => by
+  have := (h.recv 0 0 danglingData rfl _ (List.mem_singleton.2 rfl) (by decide)).1
+  simp [dangling] at this
+
+example : (audited.connect 0 0 0 0 dangling).fault = true := by
+  simp [audited, audit, auditOK, not_audit_dangling, State.faulted]
+
+/-- ... while a state in the middle of an emission passes it -/
+example : Audit midModel :=
+  audit_of_sim (sim_begin 0 0 (sim_connect 0 0 0 0 sim_init rfl rfl) rfl : Sim midModel midSpec _)
 example : (exec machine d18 5 (Run.init dangling 1 1) (.acts [.emit 0 0 0])).bad = true := rfl
 
 end Nstd.Callback
